@@ -7,7 +7,7 @@ Open Scope N_scope.
 
 Definition api_action (a : action) : Prop :=
   match a with
-  | ABodyImport _ | ABodyTag _ | ABodyConvert | ABodyMerge | AComplete _ => False
+  | ABodyImport _ | ABodyTag _ | ABodyConvert _ | ABodyMerge | AComplete _ => False
   | _ => True
   end.
 
@@ -700,7 +700,7 @@ Qed.
 Definition valid (st : state) (a : action) : Prop :=
   match a with
   | ABodyImport r => resp_t st r
-  | ABodyTag _ | ABodyConvert | ABodyMerge | AComplete _ => True
+  | ABodyTag _ | ABodyConvert _ | ABodyMerge | AComplete _ => True
   | _ => api_ok st a
   end.
 
@@ -716,7 +716,7 @@ Proof.
     left. exists p, (ABodyTag truth). split; [|reflexivity]. simpl. exists j. split; assumption.
   - destruct (jconv st) as [j|] eqn:J; [|right; simpl; rewrite J; reflexivity].
     destruct (cj_done j) eqn:R; [right; simpl; rewrite J, R; reflexivity|].
-    left. exists p, ABodyConvert. split; [|reflexivity]. simpl. exists j. split; assumption.
+    left. exists p, (ABodyConvert bad). split; [|reflexivity]. simpl. exists j. split; assumption.
   - destruct (jmerge st) as [j|] eqn:J; [|right; simpl; rewrite J; reflexivity].
     destruct (mj_res j) eqn:R; [right; simpl; rewrite J, R; reflexivity|].
     left. exists p, ABodyMerge. split; [|reflexivity]. simpl. exists j. split; assumption.
